@@ -79,6 +79,11 @@ CLAIMED = {
         'Bezier segments start/end at their coordinates for arbitrary control points; the spherical same-depth distance equals r*acos(clamp(p1.p2/r^2,-1,1)) for every pair of points.',
    note=TB + 'NOT covered: closest point on the Bezier curve (Newton search) and the Cartesian<->spherical round trip (inverse trigonometric identities) - no installed solver decides them; coordinates bounded by 1e8; exact-real reading.',
    technique='symbolic execution of clang LLVM IR + z3 (QF_NRA with uninterpreted sqrt/sin/cos/acos under contract axioms), brute-force definition as oracle', design='4/C19'),
+ 'C12': dict(
+   text='Narrowed scope (byte/JSON-level parsing is not encodable, see level_note): the validation units that sit behind the JSON layer are driven symbolically - the real parse_entries() of the plume, the gaussian plume temperature, the uniform composition/grains/raw-velocity models, the oceanic half-space model and the spherical coordinate system, fed by a stub of the Parameters API delivering lists of every length combination within the bound and arbitrary values, '
+        'followed by one query with every memory access checked: the outcome must be an exception or a memory-safe, initialised evaluation, inconsistent list lengths must be rejected, and every accepted option string must leave a defined state.',
+   note=TB + 'NOT covered: "all byte strings / all JSON documents", schema validation, formatting variants (rapidjson, schema validator and std::string/iostream code cannot be encoded with the installed tools; that layer is fuzzing territory). The stub respects the schema\'s own array-size limits. One known finding (spreading-velocity list length) is listed in known_findings.jsonl.',
+   technique='symbolic execution of clang LLVM IR + z3 with a nondeterministic stub of the JSON layer; memory safety checked by the executor on every path', design='4/C12'),
 }
 NA_DEFAULT = 'check not built yet (work in progress; see DESIGN.md section 4 for the planned obligations)'
 NA = {
